@@ -197,8 +197,9 @@ OVERRIDES = {
     # Reference.ref_format: the setter maps anything outside its list to "page" (documented)
     ("Reference", "ref_format"): ["page", "chapter", "text", "number"],
     # repeated=1 is the absence of the attribute (reads None): the domain starts at 2
-    ("Row", "repeated"): [None, 2, 5], ("Column", "repeated"): [None, 2, 5], ("Cell", "repeated"): [None, 2, 5],
+    ("Row", "repeated"): [None, 0, 2, 5], ("Column", "repeated"): [None, 2, 5], ("Cell", "repeated"): [None, 2, 5],
 }
+ZERO_IS_NOT_A_VALUE = {("Row", "repeated"), ("TocEntryTemplate", "outline_level")}   # a count / level that starts at 1
 NCNAMES = ["x", "Name_1", "id-7", "true", "é中"]      # xml:id values must be NCNames (libxml2 rejects others at parse time)
 # minimal valid keyword arguments of classes whose constructor needs some
 BASE = {
@@ -295,9 +296,16 @@ def property_names(cls):
                   and isinstance(inspect.getattr_static(cls, n, None), property))
 
 
+def load_reference():
+    """the hand-maintained reference table coq/theories/AttrSpec.v: (class, property) -> attribute qname"""
+    txt = (common.TH / "AttrSpec.v").read_text()
+    return {(c, p): a for c, p, a in re.findall(r'\("([^"]+)", \("([^"]+)", "([^"]+)"\)\)', txt)}
+
+
 class Ctx:
     """everything the case runners need"""
     def __init__(self, odfdo, info):
+        self.reference = load_reference()
         self.odfdo = odfdo
         self.info = info
         from odfdo.element import _class_registry, Element, ODF_NAMESPACES
@@ -325,6 +333,10 @@ class Ctx:
         if not m:
             return clark
         return self.rev.get(m.group(1), "{" + m.group(1) + "}") + ":" + m.group(2)
+
+    def clark(self, qname):
+        p, n = qname.split(":")
+        return "{%s}%s" % (self.ns[p], n)
 
     def bare_parse(self, xml):
         """well-formed namespaced XML?  parsed by lxml alone"""
@@ -472,6 +484,11 @@ def run_ctor(ctx, d):
         if e is None:
             continue
         hist.append(("ctor-arg", e["kind"]))
+        # 0 is a value: an int argument given as 0 must be exposed (0 vs None), unless 0 means nothing for that argument
+        if (e["kind"] == "Stored" and v == 0 and isinstance(v, int) and not isinstance(v, bool) and re.search(r"\bint\b", e["annotation"])
+                and (d["cls"], a) not in ZERO_IS_NOT_A_VALUE and str(raw_get(inst, e["prop"])) != "0"):
+            fails.append(("ctor-arg-zero-dropped/%s.%s" % (d["cls"], a),
+                          "%s(%s=0): property %s reads %r" % (d["cls"], a, e["prop"], raw_get(inst, e["prop"]))))
         # an argument that bears the name of a property of the class but is stored into ANOTHER one (BackgroundImage.repeat):
         # differential check that the same-named property exposes it
         if (e["kind"] in ("Stored", "NonProp") and e["prop"] != a and a in names and v not in (None, False, "", 0)
@@ -575,6 +592,11 @@ def run_attr(ctx, d):
             fails.append(("attr-exception/%s.%s" % (d["cls"], prop), "setting %r raised %r" % (v, e)))
             break
         after = [(ctx.qname(k), x) for k, x in el.attrib.items()]
+        ref = ctx.reference.get((d["cls"], prop))
+        if ref and isinstance(v, str) and rb == v and el.get(ctx.clark(ref)) != v:
+            fails.append(("attr-name/%s.%s" % (d["cls"], prop),
+                          "%s.%s = %r is written to %s; the reference table (AttrSpec.v) names %s"
+                          % (d["cls"], prop, v, sorted(set(after) - set(before)), ref)))
         cases.append("AttrObs %s %s %s %s %s %s %s" % (coq_str(d["cls"]), coq_str(prop), coq_sf(sf), coq_attrs(before), coq_val(v),
                                                       coq_attrs(after), coq_val(rb)))
         hist.append(("attr-set", type(v).__name__))
